@@ -19,8 +19,9 @@ RULE = ('cases = (grid class, spacing in {uniform, smoothly graded}, BC kind per
         'in every coordinate with variable D(q)>0, u(q), beta(q)); each case = three solves at n, 2n, 4n; non-trivial = coarse error '
         '> 1e-9; distinct by (class, spacing, BC vector, term set, time mode)')
 ASSUMPTIONS = ['orders are measured in the L-infinity norm and the V-weighted L2 norm against the exact solution at cell centres',
-               'thresholds: second-order sets need fine-pair order >= 1.4 and e(4n) <= e(n)/5; sets with upwind advection or dt~h '
-               'use a gentler manufactured solution and need a fine-pair error ratio >= 1.25 in at least one norm plus an overall L2 reduction >= 1.5 (consistent first order tends to 2 per refinement; an inconsistent variant stagnates at ratio 1)',
+               'thresholds: second-order sets need fine-pair order >= 1.4 and e(4n) <= e(n)/5; upwind sets are tested against the MODIFIED equation '
+               '(oracle diffusivity D + |u_k| delta_k h_k/2, Dirichlet data on inflow sides) and need L2 order >= 1.35, L_inf order >= 0.9, L2 reduction >= 4; '
+               'dt~h sets need an overall L2 reduction >= 1.5 and no growth on the fine pair',
                'outer derivative of the analytic flux density by 4th-order central differences (step 1e-4 of the axis extent)']
 
 
@@ -104,10 +105,27 @@ class MMS:
             out = out * (1 + 0.3 * np.cos(self.Dw[k] * q[k] + 1.0))
         return out
 
+    numdiff = None      # {'n': [...], 'kappa': [...]} for upwind sets: the donor-cell flux is the central flux plus a numerical
+                        # diffusion |u_k|*delta_k/2 (delta_k = local centre spacing), so the upwind solution is a SECOND-order
+                        # approximation of the modified equation with D_k = D + |u_k| delta_k h_k / 2
+
+    def spacing(self, k, s):
+        """coordinate spacing of the (smoothly mapped) grid at coordinate s of axis k"""
+        a, b = self.ext[k]
+        kp, n = self.numdiff['kappa'][k], self.numdiff['n'][k]
+        t = (s - a) / (b - a)
+        xi = t
+        for _ in range(8):
+            xi = xi - (xi + kp * np.sin(math.pi * xi) - t) / (1 + kp * math.pi * np.cos(math.pi * xi))
+        return (b - a) * (1 + kp * math.pi * np.cos(math.pi * xi)) / n
+
     def flux_density(self, k, q, adv):
-        """(J/h_k) * (u_k psi - (D/h_k) d_k psi)"""
+        """(J/h_k) * (u_k psi - (D_k/h_k) d_k psi)"""
         hk = hfun(self.cls, k, q)
-        F = -(self.D(q) / hk) * self.dpsi(k, q)
+        Dk = self.D(q)
+        if adv and self.numdiff is not None:
+            Dk = Dk + np.abs(self.u(k, q)) * self.spacing(k, q[k]) * hk / 2.0
+        F = -(Dk / hk) * self.dpsi(k, q)
         if adv:
             F = F + self.u(k, q) * self.psi(q)
         return jac(self.cls, q) / hk * F
@@ -151,7 +169,7 @@ def faces_for(ext, n, kappa):
     out = []
     for (a, b), nk, kp in zip(ext, n, kappa):
         xi = np.linspace(0, 1, nk + 1)
-        out.append(a + (b - a) * (xi + kp * np.sin(2 * math.pi * xi)))
+        out.append(a + (b - a) * (xi + kp * np.sin(math.pi * xi)))      # smooth and asymmetric: first and last cells differ
     return out
 
 
@@ -186,6 +204,7 @@ def solve_once(cls, mms, ext, n, kappa, bckinds, tset, tmode, lam):
         q[k] = _bc(g.faces[k], k, nd)
         Darr.append(np.broadcast_to(mms.D(q), g.face_shape(k)).copy())
         uarr.append(np.broadcast_to(mms.u(k, q), g.face_shape(k)).copy())
+    mms.numdiff = {'n': list(n), 'kappa': list(kappa)} if 'upwind' in tset else None
     Lpsi = np.broadcast_to(mms.spatial(qc, adv, src), g.dims)
     psi_c = np.broadcast_to(mms.psi(qc), g.dims)
     terms0 = [-pf.diffusionTerm(gen.facevar(pf, m, Darr))]
@@ -231,11 +250,15 @@ def run_case(case):
     nd = NDIM[cls]
     ext = domain_for(rng, cls)
     mms = MMS(rng, cls, ext)
-    if 'upwind' in case['tset'] or case['tmode'] == 'dt~h':
+    if case['tmode'] == 'dt~h' or nd == 3:
         # first-order sets: gentler manufactured solution, so that the a*h term dominates b*h^2 on the grids used
         mms.w = [0.5 * w for w in mms.w]
+    if case.get('usign'):
+        mms.U = [abs(u_) * sg for u_, sg in zip(mms.U, case['usign'])]
+    if 'upwind' in case['tset'] and case.get('pe') == 'high':
+        mms.U = [3.0 * u_ for u_ in mms.U]
     spacing = case['spacing']
-    kappa = [float(rng.uniform(0.06, 0.12)) * float(rng.choice([-1, 1])) if spacing == 'graded' else 0.0 for _ in range(nd)]
+    kappa = [float(rng.uniform(0.1, 0.2)) * float(rng.choice([-1, 1])) if spacing == 'graded' else 0.0 for _ in range(nd)]
     n0 = case.get('n0') or {1: 16, 2: 8, 3: 6}[nd]
     tset, tmode = case['tset'], case['tmode']
     lam = float(rng.choice([1.0, -1.0, 2.0]))
@@ -249,6 +272,22 @@ def run_case(case):
                 bckinds[side] = ('N', 1.0, 0.0)
             else:
                 bckinds[side] = ('R', float(rng.uniform(0.5, 1.5)), float(rng.uniform(0.5, 1.5)) * (-1.0 if j == 0 else 1.0))
+    if 'central' in tset or 'upwind' in tset:
+        # keep the CONTINUOUS problem well conditioned: on the inflow side of every axis use Dirichlet data or a coercive Robin
+        # condition D*dphi/dn + kappa*phi = g with kappa >= |u.n| (a Neumann / weak Robin inflow condition makes the
+        # advection-diffusion operator indefinite: errors of O(10) and no convergence on a correct tree); outflow sides keep
+        # their drawn kind.  Convection-dominated sets ('pe' = high) use Dirichlet on inflow sides.
+        umax = 1.3 ** nd * max(abs(x) for x in mms.U)
+        dmin = mms.D0 * np.prod([1 - c_ for c_ in mms.Dc])
+        for k in range(nd):
+            j = 0 if mms.U[k] > 0 else 1
+            inflow = SIDES[k][j]
+            kind = bckinds[inflow][0]
+            if case.get('pe') == 'high' or kind == 'D' or 'upwind' in tset:
+                bckinds[inflow] = ('D', 0.0, 1.0)
+            else:
+                ratio = 1.5 * umax / dmin + 0.5
+                bckinds[inflow] = ('R', 1.0, ratio * (-1.0 if j == 0 else 1.0))
     # a steady problem with only Neumann sides and no sink is singular: guarantee one Dirichlet-like side
     if all(v[0] == 'N' for v in bckinds.values()) and 'src' not in tset and tmode == 'steady':
         bckinds[SIDES[0][1]] = ('D', 0.0, 1.0)
@@ -260,12 +299,12 @@ def run_case(case):
         errs.append(r)
     einf = [e[0] for e in errs]
     el2 = [e[1] for e in errs]
-    first_order = ('upwind' in tset) or tmode == 'dt~h'
+    first_order = tmode == 'dt~h'
     # first-order sets: error = a*h + b*h^2 with a, b of either sign, so the order of a single pair is not bounded below by
     # theory (pre-asymptotic cancellation); only the total reduction over two refinements is required there
     need_order, need_red = (None, 2.5) if first_order else (1.4, 5.0)
     bcv = ''.join(case['bc'][:2 * nd])
-    key = '%s/%s/%s/%s/%s' % (cls, spacing, bcv, tset, tmode)
+    key = '%s/%s/%s/%s/%s/%s/%s' % (cls, spacing, bcv, tset, tmode, case.get('usign'), case.get('pe'))
     cov = {'cases:%s' % cls: 1, 'tset:%s' % tset: 1, 'tmode:%s' % tmode: 1, 'spacing:%s' % spacing: 1, 'solves': 3}
     for ch in set(bcv):
         cov['bc:' + ch] = 1
@@ -278,18 +317,28 @@ def run_case(case):
     maxerr = {'order_deficit': max(0.0, (need_order or 0.0) - min(p_inf, p_l2))}
     bad = []
     if need_order is not None:
-        if min(p_inf, p_l2) < need_order:
-            bad.append(('order', '%s %s BC %s terms %s %s: observed fine-pair order L_inf %.2f / L2 %.2f (need >= %.1f); errors L_inf %r' % (
-                cls, spacing, bcv, tset, tmode, p_inf, p_l2, need_order, ['%.3g' % e for e in einf])))
-        if einf[2] > einf[0] / need_red or el2[2] > el2[0] / need_red:
-            bad.append(('reduction', '%s %s BC %s terms %s %s: error not reduced by %gx over two refinements: L_inf %r L2 %r' % (
-                cls, spacing, bcv, tset, tmode, need_red, ['%.3g' % e for e in einf], ['%.3g' % e for e in el2])))
+        if 'upwind' in tset:
+            # upwind sets are second-order tests against the MODIFIED equation (numerical diffusion |u|*delta/2 in the oracle);
+            # on the coarse 3-D grids the L_inf order is depressed by the outflow-boundary faces, so the L2 order decides
+            # (>= 1.35; observed minimum on the correct tree 1.57) and the L_inf order must be >= 0.9
+            ok_order = p_l2 >= 1.35 and p_inf >= 0.9
+            ok_red = el2[2] <= el2[0] / 4.0
+        else:
+            ok_order = min(p_inf, p_l2) >= need_order
+            ok_red = einf[2] <= einf[0] / need_red and el2[2] <= el2[0] / need_red
+        if not ok_order:
+            bad.append(('order', '%s %s BC %s terms %s %s: observed fine-pair order L_inf %.2f / L2 %.2f (need >= %.2f); errors L_inf %r' % (
+                cls, spacing, bcv, tset, tmode, p_inf, p_l2, 1.35 if 'upwind' in tset else need_order, ['%.3g' % e for e in einf])))
+        if not ok_red:
+            bad.append(('reduction', '%s %s BC %s terms %s %s: error not reduced enough over two refinements: L_inf %r L2 %r' % (
+                cls, spacing, bcv, tset, tmode, ['%.3g' % e for e in einf], ['%.3g' % e for e in el2])))
     else:
-        # first-order sets (error a*h + b*h^2, either sign): an inconsistent variant stagnates in BOTH norms (ratio -> 1);
-        # a consistent one tends to 2.  Require a fine-pair ratio >= 1.25 in at least one norm and an overall L2 reduction >= 1.5
+        # dt~h sets: error a*dt + b*h^2 with a, b of either sign (observed on a correct tree: L2 errors 1.9e-3, 4.9e-4, 4.9e-4), so
+        # no single-pair order is implied; require an overall L2 reduction >= 1.5 and no growth on the fine pair.  The transient
+        # term itself is decided sharply by the dt~h^2 sets (second-order criterion) and by C12
         r_inf = einf[1] / einf[2] if einf[2] > 0 else 99.0
         r_l2 = el2[1] / el2[2] if el2[2] > 0 else 99.0
-        if max(r_inf, r_l2) < 1.25 or el2[2] > el2[0] / 1.5:
+        if el2[2] > 1.1 * el2[1] or el2[2] > el2[0] / 1.5:
             bad.append(('stagnation', '%s %s BC %s terms %s %s: first-order scheme does not converge: fine-pair error ratios L_inf %.2f / L2 %.2f, errors L_inf %r L2 %r' % (
                 cls, spacing, bcv, tset, tmode, r_inf, r_l2, ['%.3g' % e for e in einf], ['%.3g' % e for e in el2])))
     if bad:
@@ -308,10 +357,14 @@ def plan(tier, seed):
     for ci, cls in enumerate(CLASSES):
         nd = NDIM[cls]
         if tier == 'quick':
-            combos = [('uniform', 'DRNDRN', 'D+central', 'steady'), ('graded', 'RDDNND', 'D+upwind+src', 'steady'),
-                      ('graded', 'NRRDDR', 'D', 'dt~h2' if nd < 3 else 'steady'), ('uniform', 'DDRRNN', 'D+src', 'steady')]
+            combos = [('uniform', 'DRNDRN', 'D+central', 'steady'), ('graded', 'RNDNDN', 'D+upwind+src', 'steady', [-1, -1, -1]),
+                      ('graded', 'NDNRND', 'D+upwind', 'steady', [1, 1, 1]),
+                      ('graded', 'DRRNDR', 'D+upwind', 'steady', [1, -1, 1], 'high'),
+                      ('graded', 'NRRDDR', 'D', 'dt~h2' if nd < 3 else 'steady'), ('uniform', 'DDRRNN', 'D+src', 'steady'),
+                      ('graded', 'RNNRRN', 'D+central+src', 'steady')]
             if nd < 3:
                 combos.append(('graded', 'RNDRDN', 'D+central+src', 'dt~h'))
+                combos.append(('graded', 'DRRDNR', 'D+upwind', 'steady', [-1, 1, -1]))
         else:
             rng = gen.rng_for(seed, 2, ci)
             combos = []
@@ -319,18 +372,21 @@ def plan(tier, seed):
                 for tset in TSETS + ['D+upwind+src']:
                     for rep in range(6 if nd < 3 else 2):
                         bc = ''.join(rng.choice(['D', 'N', 'R'], 6))
-                        combos.append((spacing, bc, tset, 'steady'))
+                        combos.append((spacing, bc, tset, 'steady', [int(x) for x in rng.choice([-1, 1], 3)], 'high' if rep % 3 == 2 else 'moderate'))
                 for tset in ('D', 'D+central', 'D+upwind'):
                     for tmode in ('dt~h2', 'dt~h'):
                         if nd == 3 and tmode == 'dt~h2':
                             continue
                         bc = ''.join(rng.choice(['D', 'N', 'R'], 6))
                         combos.append((spacing, bc, tset, tmode))
-        for spacing, bc, tset, tmode in combos:
+        for combo in combos:
+            spacing, bc, tset, tmode = combo[:4]
+            usign = combo[4] if len(combo) > 4 else None
+            pe = combo[5] if len(combo) > 5 else 'moderate'
             n0 = None
             if nd == 3 and tmode != 'steady':
                 n0 = 4
-            cases.append({'cls': cls, 'spacing': spacing, 'bc': list(bc), 'tset': tset, 'tmode': tmode, 'n0': n0, 'seed': [seed, 2, ci, i]})
+            cases.append({'cls': cls, 'spacing': spacing, 'bc': list(bc), 'tset': tset, 'tmode': tmode, 'n0': n0, 'usign': usign, 'pe': pe, 'seed': [seed, 2, ci, i]})
             i += 1
     # one case per chunk for the 3-D classes (cost), a few per chunk otherwise
     chunks = []
